@@ -334,7 +334,12 @@ func faultCaseBig(w *W, idx int, async bool) {
 				for _, off := range []uint32{3, 16384 + 3, 32768 + 3} {
 					v := int64(si+1)*1000 + int64(off)
 					expect[off] = v
-					txn.QueryAt(off, func(r column.Row) error { r.SetInt64("i64", v); return nil })
+					// two columns: the transaction needs two distinct update buffers from the page pool
+					txn.QueryAt(off, func(r column.Row) error {
+						r.SetString("s", fmt.Sprintf("post-%d", v))
+						r.SetInt64("i64", v)
+						return nil
+					})
 				}
 				return nil
 			})
@@ -347,12 +352,22 @@ func faultCaseBig(w *W, idx int, async bool) {
 			os.Exit(77)
 		}
 		w.Stat("post_fault_commits_checked", 1)
+		for off, v := range expect {
+			var got int64
+			var gs string
+			c.QueryAt(off, func(r column.Row) error { got, _ = r.Int64("i64"); gs, _ = r.String("s"); return nil })
+			if got != v || gs != fmt.Sprintf("post-%d", v) {
+				fail(fmt.Sprintf("row %d reads i64=%d s=%q right after the post-fault transaction, expected %d and \"post-%d\" (a store of a transaction committed after the failed snapshot was lost)", off, got, gs, v, v), f)
+				return
+			}
+		}
 	}
 	for off, v := range expect {
 		var got int64
-		c.QueryAt(off, func(r column.Row) error { got, _ = r.Int64("i64"); return nil })
-		if got != v {
-			fail(fmt.Sprintf("row %d reads %d after the post-fault transactions, expected %d", off, got, v), specs[len(specs)-1])
+		var gs string
+		c.QueryAt(off, func(r column.Row) error { got, _ = r.Int64("i64"); gs, _ = r.String("s"); return nil })
+		if got != v || gs != fmt.Sprintf("post-%d", v) {
+			fail(fmt.Sprintf("row %d reads i64=%d s=%q after the post-fault transactions, expected %d and \"post-%d\" (a store of a transaction committed after a failed snapshot was lost)", off, got, gs, v, v), specs[len(specs)-1])
 			return
 		}
 	}
